@@ -464,6 +464,10 @@ class Bounds:
                         work.extend(x for x in self._atoms_of([rng[2][0]]) if x not in work)
                     elif lab.endswith("RangeFrom::RangeFrom"):
                         s = self.lin(rng[2][0])
+                        if s[0] is not None:
+                            plo, phi_ = self._sub_itv(rng[2][0])
+                            if plo == phi_ and plo not in (INF, -INF):
+                                s = (None, plo)      # e.g. a cursor position known exactly
                         if s[0] is None:
                             bl = ("len", base)
                             extra_edges.append(("Eq", a, ("bin", "Sub", bl, ("int", s[1]))))
